@@ -797,6 +797,25 @@ def run_context_kinds(job):
                 kind = ["plain", "none", "collection-rename-global", "collection-delete-element-key", "empty", "keys-named-error-status-metadata",
                         "node-writes-key-named-error", "plain-after-fire-and-forget"][i]
                 problems.append(["C15:wrong-result:context-kind:" + kind, "job %d (context kind %s): Future %s, direct execution %s" % (i, kind, got, expected[i])])
+        # one context OBJECT handed to several jobs (a caller preparing one context and enqueuing a batch with it): every job
+        # still works on what it was given and returns its own result
+        shared = ContextType({"tag": 5})
+        factors = [2, 3, 5, 7]
+        sfuts = [orch.enqueue([{"processor": FloatMultiplyOperation, "parameters": {"factor": f}}, {"processor": FloatCollectValueProbe, "context_key": "probe"}],
+                              data=FloatDataType(1.0), context=shared, return_future=True) for f in factors]
+        deadline = time.time() + 10
+        for f, fut in zip(factors, sfuts):
+            try:
+                data, ctx = fut.result(timeout=max(0.2, deadline - time.time()))
+                got = [str(data), ctx.get_value("probe"), ctx.get_value("tag")]
+            except Exception as exc:  # noqa
+                got = ["error", type(exc).__name__]
+            want = [str(FloatDataType(float(f))), float(f), 5]
+            if got != want:
+                problems.append(["C15:wrong-result:one-context-object-for-several-jobs",
+                                 "four jobs (factors %s) enqueued with ONE ContextType object: the Future of factor %d gives %s, its own run gives %s"
+                                 % (factors, f, got, want)])
+                break
     finally:
         try:
             orch.stop()
